@@ -93,7 +93,13 @@ def write_request(tables, uri, inc, newver, fname):
     return [Sym("write_doc"), tables[:4], [uri, inc, T0.isoformat(), "NOW", [] if newver is None else [newver], fname]]
 
 def make_graph(rng, quick, hostile=False, clash=False, shape=None, extra=None):
-    if shape == "hub":
+    if shape == "slash-twin":      # two namespaces whose URIs differ only in a final slash, both with nodes (and so both with a model)
+        g = nsgen.gen_graph(rng, n_ns=2, n_nodes=rng.randint(5, 7), hostile=False, dangling=False, value_gen=parseprops.value_gen, slash_twin=True)
+        for j_, u_ in enumerate(g.uris):
+            if not [k for k in g.order if k[0] == u_]:
+                k = (u_, "i", str(7400 + j_)); g.nodes[k] = dict(cls="UAObject", bname=(u_, "Twin%d" % j_), display="Twin%d" % j_, desc=None, attrs={}, value=None); g.order.append(k)
+                g.refs.append(((UA, "i", "85"), k, (UA, "i", "35")))
+    elif shape == "hub":
         g = nsgen.gen_graph(rng, n_ns=12, n_nodes=rng.randint(6, 10), hostile=False, dangling=False, value_gen=parseprops.value_gen)
     elif shape == "wide":      # ten namespaces with one or two nodes each and sparse dependencies: compaction over a long table
         g = nsgen.gen_graph(rng, n_ns=rng.randint(9, 11), n_nodes=rng.randint(12, 16), hostile=hostile, dangling=False, value_gen=parseprops.value_gen)
@@ -388,7 +394,7 @@ def run(ctx, prop):
     reqs = []; meta = []
     try:
         for ci in range({"quick": 14, "thorough": 300}[ctx.tier]):
-            shape = {0: "skip-middle", 1: "markup-id", 3: "wide", 5: "attr-only", 6: "hub"}.get(ci % 7)
+            shape = {0: "skip-middle", 1: "markup-id", 2: "slash-twin", 3: "wide", 5: "attr-only", 6: "hub"}.get(ci % 7)
             # the structural shapes are generated without hostile text, so that what they show is not attributed to the recorded escaping findings
             hostile = rng.random() < 0.4 and shape in (None, "markup-id")
             g, ds = make_graph(rng, ctx.quick(), hostile=hostile, shape=shape)
